@@ -14,6 +14,7 @@ import TerwayModel.Driver.Ipam
 import TerwayModel.Driver.PodEni
 import TerwayModel.Driver.StoredRec
 import TerwayModel.Driver.Agent
+import TerwayModel.Driver.Factory
 /-
 `drv`: reads one operation per line (`<model>.<op> arg…`), prints one canonical line per input.
 Malformed or unknown lines print `bad-op` — never a default value.
@@ -37,6 +38,7 @@ def dispatch (st : St) (line : String) : St × String :=
     match head.splitOn "." with
     | ["net", op] => (st, (Net.step op args).getD "bad-op")
     | ["bw", op] => (st, (Bandwidth.step op args).getD "bad-op")
+    | ["fa", op] => (st, (FactoryD.step op args).getD "bad-op")
     | ["sr", op] => (st, (StoredRecD.step op args).getD "bad-op")
     | ["cap", op] => (st, (Capacity.step op args).getD "bad-op")
     | ["fib", op] =>
